@@ -4,6 +4,7 @@
 From Coq Require Import ZArith List Bool Sorting.Sorted.
 Import ListNotations.
 From GV Require Import Common.PyInt gen.Gen_array C20.Model C20.Lemmas C20.Lemmas2 C20.OdometerProof C20.Final C20.CombineProof C20.ViewShape.
+From GV Require Import gen.Gen_arraypure C20.Purity C20.ViewKinds C20.CatObjects.
 Open Scope Z_scope.
 
 (* no chunk larger than the requested limit; chunk shape fits the array shape (translated code) *)
@@ -127,3 +128,113 @@ Theorem view_shape_correct : forall (shape : list Z) (view : list ventry),
   view_shape shape view = option_map (map zlen) (view_sel shape view).
 Proof. exact ViewShape.view_shape_correct. Qed.
 Print Assumptions view_shape_correct.
+
+(* ================= round 4: the helpers are exact in every call history (purity) ================= *)
+
+(* read off the SOURCE of glue/utils/array.py (table regenerated on every run): no helper named by the property carries
+   a decorator other than @property / @categories.setter on the categorical accessors (so: no cache decorator), none is
+   re-bound at module level, declares a global, writes or reads a module-level variable, uses a function attribute as
+   state, or has a default value shared between calls *)
+Theorem helpers_stateless : forall r : fn_row, In r helper_table ->
+  (forall d, In d (r_decos r) -> deco_ok (r_name r) d = true) /\
+  r_rebound r = false /\ r_globals r = [] /\ r_module_writes r = [] /\ r_module_reads r = [] /\
+  r_func_attrs r = [] /\ r_mutable_defaults r = [].
+Proof. exact Purity.helpers_stateless. Qed.
+Print Assumptions helpers_stateless.
+
+(* what a helper hands back unchanged, changes on an argument, or keeps of an argument is on the explicit allow-lists of
+   coq/C20/Purity.v (view_shape returns `shape` for view None; unbroadcast returns a 0-d array as it is; the categorical
+   object's own lazily computed caches) *)
+Theorem helpers_alias_allowlist : forall r : fn_row, In r helper_table ->
+  (forall p, In p (r_returns_param r) -> In p (allowed_for allowed_returns (r_name r))) /\
+  (forall w, In w (r_attr_writes r) -> In w (allowed_for allowed_arg_writes (r_name r))) /\
+  (forall w, In w (r_param_stored r) -> In w (allowed_for allowed_param_stored (r_name r))).
+Proof. exact Purity.helpers_alias_allowlist. Qed.
+Print Assumptions helpers_alias_allowlist.
+
+(* the table covers every anchor, is closed under "refers to", and no class attribute is a shared mutable value *)
+Theorem helper_table_closed :
+  (forall a, In a anchors -> In a table_names) /\
+  (forall r, In r helper_table -> forall c, In c (r_calls r) -> In c table_names \/ c = class_name) /\
+  (forall c n m, In (c, n, m) class_attrs_gen -> m = false).
+Proof. exact Purity.helper_table_closed. Qed.
+Print Assumptions helper_table_closed.
+
+(* the TRANSLATED view_shape (two lines around the numpy operation) on int / slice views: the per-axis lengths of the
+   positions really selected *)
+Theorem view_shape_full_basic : forall (shape : list Z) (v : list ventry),
+  Forall (fun n => 0 <= n) shape ->
+  view_shape_full shape (Some (map ventry_item v)) = option_map (map zlen) (view_sel shape v).
+Proof. exact ViewKinds.view_shape_full_basic. Qed.
+Print Assumptions view_shape_full_basic.
+
+(* view_shape is a function of the view as numpy reads it: index items of the same kind and value ... *)
+Theorem view_shape_reads_kinds : forall (shape : list Z) (v w : list vitem),
+  np_eq_view v w = true -> view_shape_full shape (Some v) = view_shape_full shape (Some w).
+Proof. exact ViewKinds.view_shape_reads_kinds. Qed.
+Print Assumptions view_shape_reads_kinds.
+
+(* ... and NO function that identifies views equal for Python (1 == True, 0 == False) computes it: x[1] drops an axis,
+   x[True] adds one *)
+Theorem view_shape_python_equality_refuted :
+  ~ exists f : list Z -> list vitem -> option (list Z),
+      (forall sh v w, py_eq_view v w = true -> f sh v = f sh w) /\
+      (forall sh v, f sh v = view_shape_full sh (Some v)).
+Proof. exact ViewKinds.view_shape_python_equality_refuted. Qed.
+Print Assumptions view_shape_python_equality_refuted.
+
+(* call histories: a view_shape that remembers earlier calls is exact in EVERY history provided its key equality only
+   identifies views numpy reads alike ... *)
+Theorem memoised_view_shape_exact : forall keq : list vitem -> list vitem -> bool,
+  (forall v w, keq v w = true -> forall sh, np_index_shape sh v = np_index_shape sh w) ->
+  forall calls, run_cached keq [] calls = map (fun c => np_index_shape (fst c) (snd c)) calls.
+Proof. exact ViewKinds.memoised_view_shape_exact. Qed.
+Print Assumptions memoised_view_shape_exact.
+
+(* ... and with Python equality as the key there is a history in which a call returns an earlier call's shape *)
+Theorem memoised_view_shape_python_key_refuted :
+  exists calls, run_cached py_eq_view [] calls <> map (fun c => np_index_shape (fst c) (snd c)) calls.
+Proof. exact ViewKinds.memoised_view_shape_python_key_refuted. Qed.
+Print Assumptions memoised_view_shape_python_key_refuted.
+
+(* categorical arrays as objects: after ANY history of constructions, re-wrappings (copy or not, categories given or
+   not), views / slices and reads of .codes / .categories, every object satisfies categories[codes] == values *)
+Theorem cat_history_consistent : forall ops : list cop,
+  let h := fst (crun empty_heap ops) in
+  Forall (fun o => obs_codes h o = lookup_codes (obs_cats h o) (obj_values h o)) (h_objs h).
+Proof. exact CatObjects.cat_history_consistent. Qed.
+Print Assumptions cat_history_consistent.
+
+(* ... and no call changes what an earlier object shows (values, categories, codes) *)
+Theorem cat_history_pure : forall (ops : list cop) (op : cop),
+  let h := fst (crun empty_heap ops) in
+  let h' := fst (cstep h op) in
+  forall j, (j < length (h_objs h))%nat -> obs3 h' (get_obj h' j) = obs3 h (get_obj h j).
+Proof. exact CatObjects.cat_history_pure. Qed.
+Print Assumptions cat_history_pure.
+
+(* re-wrapping with explicit categories yields a NEW object (next index) with the requested categories and the source's
+   values, on the SAME data buffer when copy=False and on a fresh one when copy=True *)
+Theorem rewrap_new_object : forall (ops : list cop) (src : nat) (copy : bool) (cats : list Z),
+  let h := fst (crun empty_heap ops) in
+  (src < length (h_objs h))%nat ->
+  let '(h', r) := cstep h (CRewrap src copy (Some cats)) in
+  let n := length (h_objs h) in
+  r = RObj n /\ length (h_objs h') = S n /\
+  obs_cats h' (get_obj h' n) = cats /\
+  obj_values h' (get_obj h' n) = obj_values h (get_obj h src) /\
+  (copy = false -> o_buf (get_obj h' n) = o_buf (get_obj h src)) /\
+  (copy = true -> o_buf (get_obj h' n) = length (h_bufs h)).
+Proof. exact CatObjects.rewrap_new_object. Qed.
+Print Assumptions rewrap_new_object.
+
+(* handing the argument itself back and assigning the categories to it (no new view) changes the original's categories
+   and leaves its cached codes stale *)
+Theorem rewrap_alias_refuted :
+  exists ops src cats,
+    let h := fst (crun empty_heap ops) in
+    let h' := rewrap_alias h src cats in
+    obs_cats h' (get_obj h' src) <> obs_cats h (get_obj h src) /\
+    obs_codes h' (get_obj h' src) <> lookup_codes (obs_cats h' (get_obj h' src)) (obj_values h' (get_obj h' src)).
+Proof. exact CatObjects.rewrap_alias_refuted. Qed.
+Print Assumptions rewrap_alias_refuted.
